@@ -23,8 +23,13 @@ package phase1
 //@   ensures[flip] forall i int :: 0 <= i && i < len(g.Edges) ==>
 //@       (g.Edges[i].IsReversed != old(g.Edges[i].IsReversed) ? (g.Edges[i].From == old(g.Edges[i].To) && g.Edges[i].To == old(g.Edges[i].From))
 //@                                                            : (g.Edges[i].From == old(g.Edges[i].From) && g.Edges[i].To == old(g.Edges[i].To)))
+//@   ensures[quiet|C14] (forall i int :: 0 <= i && i < len(g.Edges) ==> g.Edges[i].IsReversed == old(g.Edges[i].IsReversed)) ==>
+//@       ((forall n *Node :: n.Out == old(n.Out)) && (forall n *Node, j int :: 0 <= j && j < len(n.Out) ==> n.Out[j] == old(n.Out[j]))
+//@        && (forall f *Edge :: f.From == old(f.From) && f.To == old(f.To) && f.IsReversed == old(f.IsReversed)))
 //@   loop range(g.Edges)#1 index i
 //@     invariant seen != nil
+//@     invariant[quiet1|C14] (forall n *Node :: n.Out == old(n.Out)) && (forall n *Node, j int :: 0 <= j && j < len(n.Out) ==> n.Out[j] == old(n.Out[j]))
+//@     invariant[quiet1f|C14] forall f *Edge :: f.From == old(f.From) && f.To == old(f.To) && f.IsReversed == old(f.IsReversed)
 //@     invariant forall k int :: 0 <= k && k < len(g.Edges) ==> g.Edges[k] == old(g.Edges[k])
 //@     invariant forall a *Node, b *Node :: seen[arr2(a, b)] ==> (exists j int :: 0 <= j && j < i && g.Edges[j].From == a && g.Edges[j].To == b)
 //@     invariant len(rev) <= i && (forall k int :: 0 <= k && k < len(rev) ==>
@@ -34,6 +39,8 @@ package phase1
 //@     invariant forall k int :: 0 <= k && k < len(rev) ==> (exists m int :: 0 <= m && m < i && rev[k] == g.Edges[m])
 //@     invariant rev == nil || (allocatedArr(rev) && arr(rev) != arr(g.Edges) && (forall n *Node :: arr(n.In) != arr(rev) && arr(n.Out) != arr(rev)))
 //@   loop range(rev)#1 index c
+//@     invariant[quiet2|C14] c == 0 ==> ((forall n *Node :: n.Out == old(n.Out)) && (forall n *Node, j int :: 0 <= j && j < len(n.Out) ==> n.Out[j] == old(n.Out[j])))
+//@     invariant[witness|C14] forall k int :: 0 <= k && k < len(rev) ==> (exists m int :: 0 <= m && m < len(g.Edges) && rev[k] == g.Edges[m])
 //@     invariant len(g.Edges) == old(len(g.Edges)) && (forall k int :: 0 <= k && k < len(g.Edges) ==> g.Edges[k] == old(g.Edges[k]) && g.Edges[k].From != nil && g.Edges[k].To != nil)
 //@     invariant forall k int :: 0 <= k && k < len(rev) ==> rev[k] == loopold(rev[k])
 //@     invariant forall f *Edge :: (exists k int :: 0 <= k && k < c && rev[k] == f)
@@ -136,3 +143,14 @@ package phase1
 //@     invariant p != nil && (p.reversable == nil || allocatedArr(p.reversable)) && p.reversable == loopold(p.reversable)
 //@     invariant (forall m *Node :: arr(m.Out) == 0 || arr(m.Out) != arr(p.reversable)) && (forall m *Node :: arr(m.In) == 0 || arr(m.In) != arr(p.reversable))
 //@     invariant forall k int :: 0 <= k && k < len(p.reversable) ==> p.reversable[k] != nil && p.reversable[k] == loopold(p.reversable[k])
+
+// ---------------------------------------------------------------------------
+// phase1.Alg.Process (C14, second half: acyclic inputs are untouched, for both cycle breakers). With a ghost
+// topological numbering along which every edge strictly descends, the pre-pass finds no antiparallel pair and reverses
+// nothing (removeTwoNodeCycles: ensures[only_antiparallel]/[flip]/[quiet]), hasCycles answers "no" (its own contract),
+// and the driver returns before either breaker runs: every edge keeps its ends and its reversed flag.
+//@ func Alg.Process
+//@   requires[dag|C14] g != nil && edgesOK(g) && outWF() && acyclicByTopo() && (forall i int :: 0 <= i && i < len(g.Nodes) ==> g.Nodes[i] != nil)
+//@   requires[dag2|C14] forall i int :: 0 <= i && i < len(g.Edges) ==> g.Edges[i].From != g.Edges[i].To && topo(g.Edges[i].To) < topo(g.Edges[i].From)
+//@   ensures[untouched|C14] len(g.Edges) == old(len(g.Edges)) && (forall i int :: 0 <= i && i < len(g.Edges) ==> g.Edges[i] == old(g.Edges[i])
+//@       && g.Edges[i].IsReversed == old(g.Edges[i].IsReversed) && g.Edges[i].From == old(g.Edges[i].From) && g.Edges[i].To == old(g.Edges[i].To))
